@@ -615,3 +615,357 @@ theorem evalBody_spec {env : Env} {g : Graph} {k : Nat} {d : DataId} {v : View}
             refine ⟨⟨by rw [qg]; exact pg1, hext, hfr, qcoh, ⟨m', hm', ?_⟩⟩, ?_⟩
             · simp only [Expr.denote, denoteOr, he0, hfold]
             · intro a ha; cases ha; exact px1.1
+
+/-! ## `to_mask = denote` under the invariant -/
+
+theorem Rep.node {g : Graph} : ∀ {e : Expr} {n : Nat}, Rep g n e → ∃ node, g.nodes[n]? = some node
+  | .leaf _, _, h => by simp only [Rep] at h; obtain ⟨_, _, h1, _⟩ := h; exact ⟨_, h1⟩
+  | .bin _ _ _, _, h => by simp only [Rep] at h; obtain ⟨_, _, h1, _⟩ := h; exact ⟨_, h1⟩
+  | .inv _, _, h => by simp only [Rep] at h; obtain ⟨_, h1, _⟩ := h; exact ⟨_, h1⟩
+  | .multiOr _, _, h => by simp only [Rep] at h; obtain ⟨_, _, h1, _⟩ := h; exact ⟨_, h1⟩
+
+theorem Heap.lookup_some {h : Heap} {k : Key} {a : ArrId} (hl : h.lookup k = some a) :
+    ∃ x ∈ h.memo, x.key = k ∧ x.arr = a := by
+  simp only [Heap.lookup, Option.map_eq_some_iff] at hl
+  obtain ⟨x, hx, ha⟩ := hl
+  exact ⟨x, List.mem_of_find?_eq_some hx, by simpa using List.find?_some hx, ha⟩
+
+theorem toMask_spec (tbl : ClassTable) (env : Env) :
+    ∀ (fuel : Nat) (h : Heap) (n : Nat) (d : DataId) (v : View) (f : Form) (e : Expr),
+      CacheCoherent env h → Rep h.g n e → e.depth < fuel →
+      Post env h e d v (toMask tbl env fuel h n d v f) := by
+  intro fuel
+  induction fuel with
+  | zero => intro h n d v f e _ _ hd; omega
+  | succ fuel ih =>
+    intro h n d v f e hc hrep hd
+    obtain ⟨node, hnode⟩ := hrep.node
+    have hrec : RecOk env h.g fuel d v (fun h' c f' => toMask tbl env fuel h' c d v f') := by
+      intro h' c f' e' hg' hc' hr' hd'
+      exact ih h' c d v f' e' hc' (by rw [hg']; exact hr') hd'
+    have hbody := evalBody_spec hrec h n node e rfl hc hrep hnode (by omega)
+    simp only [toMask, hnode]
+    cases hm : tbl.memoTable node with
+    | none => exact hbody.1
+    | some t =>
+      cases hv : v.hashable with
+      | false => exact hbody.1
+      | true =>
+        dsimp only
+        cases hl : h.lookup ⟨t, n, d, v, f⟩ with
+        | some a =>
+          obtain ⟨x, hx, hk, ha⟩ := Heap.lookup_some hl
+          obtain ⟨e', m, hr', harr, hden⟩ := hc x hx
+          rw [hk] at hr' hden
+          rw [ha] at harr
+          have : e' = e := Rep.functional e' e n hr' hrep
+          subst this
+          exact ⟨rfl, ArrExt.refl _, MemoFresh.refl _, hc, ⟨m, harr, hden⟩⟩
+        | none =>
+          rcases hb : evalBody env (fun h' c f' => toMask tbl env fuel h' c d v f') h node d v with ⟨h', r⟩
+          rw [hb] at hbody
+          obtain ⟨hp, hnew⟩ := hbody
+          have pg : h'.g = h.g := hp.g
+          have px : ArrExt h h' := hp.ext
+          have pf : MemoFresh h h' := hp.fresh
+          have pc : CacheCoherent env h' := hp.coh
+          cases r with
+          | error er => exact ⟨pg, px, pf, pc, hp.res⟩
+          | ok a =>
+            obtain ⟨m, harr, hden⟩ : ∃ m, h'.arrays[a]? = some m ∧ e.denote env d v = .ok m := hp.res
+            have hfresh : h.arrays.length ≤ a := hnew a rfl
+            refine ⟨pg, px, ?_, ?_, ⟨m, harr, hden⟩⟩
+            · intro x hx
+              simp only [Heap.store, List.mem_append, List.mem_singleton] at hx
+              rcases hx with hx | rfl
+              · exact pf x hx
+              · exact Or.inr hfresh
+            · intro x hx
+              simp only [Heap.store, List.mem_append, List.mem_singleton] at hx
+              rcases hx with hx | rfl
+              · exact pc x hx
+              · exact ⟨e, m, by show Rep h'.g n e; rw [pg]; exact hrep, harr, hden⟩
+
+/-! ## Constructors -/
+
+theorem Rep.depth_lt_fuel {g : Graph} {n : Nat} {e : Expr} (h : Rep g n e) : e.depth < g.fuel := by
+  have := Rep.depth_le e n h
+  have := h.lt_length
+  simp only [Graph.fuel]; omega
+
+theorem copy_spec (tbl : ClassTable) (hf : tbl.Faithful) (g : Graph) (n : Nat) (e : Expr)
+    (h : Rep g n e) : ∃ g' n', copyNode tbl g.fuel g n = (g', some n') ∧ g.Le g' ∧ Rep g' n' e :=
+  copyNode_spec tbl hf g.fuel g n e h h.depth_lt_fuel
+
+theorem mkLeaf_spec (g : Graph) (k : Kind) (c : Content) :
+    g.Le (mkLeaf g k c).1 ∧ Rep (mkLeaf g k c).1 (mkLeaf g k c).2 (.leaf c) := by
+  refine ⟨(g.addParam_le c).trans (Graph.addNode_le _ _), ?_⟩
+  simp only [Rep, mkLeaf]
+  exact ⟨k, _, Graph.addNode_get _ _, (Graph.addNode_le _ _).params _ _ (g.addParam_get c)⟩
+
+theorem mkBin_spec (tbl : ClassTable) (hf : tbl.Faithful) (g : Graph) (op : BinOp) (a b : Nat)
+    (ea eb : Expr) (ha : Rep g a ea) (hb : Rep g b eb) :
+    ∃ g' n, mkBin tbl g op a b = (g', some n) ∧ g.Le g' ∧ Rep g' n (.bin op ea eb) := by
+  obtain ⟨g1, a', e1, le1, r1⟩ := copy_spec tbl hf g a ea ha
+  obtain ⟨g2, b', e2, le2, r2⟩ := copy_spec tbl hf g1 b eb (Rep.mono le1 eb b hb)
+  simp only [mkBin, e1, e2]
+  refine ⟨_, _, rfl, (le1.trans le2).trans (Graph.addNode_le _ _), ?_⟩
+  simp only [Rep]
+  exact ⟨a', b', Graph.addNode_get _ _, Rep.lt_length (Rep.mono le2 ea a' r1), Rep.lt_length r2,
+    Rep.mono (le2.trans (Graph.addNode_le _ _)) ea a' r1, Rep.mono (Graph.addNode_le _ _) eb b' r2⟩
+
+theorem mkInv_spec (tbl : ClassTable) (hf : tbl.Faithful) (g : Graph) (a : Nat) (ea : Expr)
+    (ha : Rep g a ea) : ∃ g' n, mkInv tbl g a = (g', some n) ∧ g.Le g' ∧ Rep g' n (.inv ea) := by
+  obtain ⟨g1, a', e1, le1, r1⟩ := copy_spec tbl hf g a ea ha
+  simp only [mkInv, e1]
+  refine ⟨_, _, rfl, le1.trans (Graph.addNode_le _ _), ?_⟩
+  simp only [Rep]
+  exact ⟨a', Graph.addNode_get _ _, Rep.lt_length r1, Rep.mono (Graph.addNode_le _ _) ea a' r1⟩
+
+/-- Elementwise `Rep` without an age bound. -/
+def RepAll (g : Graph) : List Nat → List Expr → Prop
+  | [], [] => True
+  | c :: cs, e :: es => Rep g c e ∧ RepAll g cs es
+  | [], _ :: _ => False
+  | _ :: _, [] => False
+
+theorem RepAll.toRepList {g g' : Graph} (hle : g.Le g') {b : Nat} (hb : g.nodes.length ≤ b) :
+    ∀ (cs : List Nat) (es : List Expr), RepAll g cs es → RepList g' b cs es
+  | [], [], _ => by simp only [RepList]
+  | c :: cs, e :: es, h => by
+    simp only [RepAll] at h
+    simp only [RepList]
+    exact ⟨Nat.lt_of_lt_of_le h.1.lt_length hb, Rep.mono hle e c h.1, RepAll.toRepList hle hb cs es h.2⟩
+  | [], _ :: _, h => by simp only [RepAll] at h
+  | _ :: _, [], h => by simp only [RepAll] at h
+
+theorem mkMultiOr_spec (g : Graph) (cs : List Nat) (es : List Expr) (hne : es ≠ [])
+    (h : RepAll g cs es) :
+    g.Le (mkMultiOr g cs).1 ∧ Rep (mkMultiOr g cs).1 (mkMultiOr g cs).2 (.multiOr es) := by
+  have hle : g.Le (mkMultiOr g cs).1 := (g.addList_le cs).trans (Graph.addNode_le _ _)
+  refine ⟨hle, ?_⟩
+  simp only [Rep]
+  refine ⟨_, cs, Graph.addNode_get _ _, (Graph.addNode_le _ _).lists _ _ (g.addList_get cs), hne, ?_⟩
+  exact RepAll.toRepList hle (Nat.le_refl _) cs es h
+
+theorem editGraph_spec (tbl : ClassTable) (hf : tbl.Faithful) (g : Graph) (m : Mode) (new cur : Nat)
+    (en ec : Expr) (hn : Rep g new en) (hc : Rep g cur ec) :
+    ∃ g' n, Impl.editGraph tbl g m new cur = (g', some n) ∧ g.Le g' ∧ Rep g' n (Spec.editExpr m en ec) := by
+  cases m with
+  | replace => exact copy_spec tbl hf g new en hn
+  | new => exact copy_spec tbl hf g new en hn
+  | and => exact mkBin_spec tbl hf g .and new cur en ec hn hc
+  | or => exact mkBin_spec tbl hf g .or new cur en ec hn hc
+  | xor => exact mkBin_spec tbl hf g .xor new cur en ec hn hc
+  | andNot =>
+    obtain ⟨g1, i, e1, le1, r1⟩ := mkInv_spec tbl hf g new en hn
+    obtain ⟨g2, n, e2, le2, r2⟩ := mkBin_spec tbl hf g1 .and cur i ec (.inv en) (Rep.mono le1 ec cur hc) r1
+    simp only [Impl.editGraph, e1]
+    exact ⟨g2, n, e2, le1.trans le2, r2⟩
+
+/-! ## Programs: `Impl` simulates `Spec` -/
+
+def VarsRep (g : Graph) (vs : List Nat) (es : List Expr) : Prop :=
+  vs.length = es.length ∧ ∀ (i n : Nat) (e : Expr), vs[i]? = some n → es[i]? = some e → Rep g n e
+
+theorem VarsRep.mono {g g' : Graph} {vs : List Nat} {es : List Expr} (h : VarsRep g vs es)
+    (hle : g.Le g') : VarsRep g' vs es :=
+  ⟨h.1, fun i n e h1 h2 => Rep.mono hle e n (h.2 i n e h1 h2)⟩
+
+theorem VarsRep.get {g : Graph} {vs : List Nat} {es : List Expr} (h : VarsRep g vs es) {a x : Nat}
+    (hx : vs[a]? = some x) : ∃ e, es[a]? = some e ∧ Rep g x e := by
+  have ha : a < es.length := by rw [← h.1]; exact lt_length_of_getElem? hx
+  exact ⟨es[a], List.getElem?_eq_getElem ha, h.2 a x _ hx (List.getElem?_eq_getElem ha)⟩
+
+theorem VarsRep.get_none {g : Graph} {vs : List Nat} {es : List Expr} (h : VarsRep g vs es) {a : Nat}
+    (hx : vs[a]? = none) : es[a]? = none := by
+  rw [List.getElem?_eq_none_iff] at hx ⊢
+  rw [← h.1]; exact hx
+
+theorem VarsRep.push {g : Graph} {vs : List Nat} {es : List Expr} (h : VarsRep g vs es) {n : Nat}
+    {e : Expr} (hr : Rep g n e) : VarsRep g (vs ++ [n]) (es ++ [e]) := by
+  refine ⟨by simp [h.1], ?_⟩
+  intro i n' e' h1 h2
+  rcases Nat.lt_or_ge i vs.length with hi | hi
+  · rw [List.getElem?_append_left hi] at h1
+    rw [List.getElem?_append_left (by rw [← h.1]; exact hi)] at h2
+    exact h.2 i n' e' h1 h2
+  · rw [List.getElem?_append_right hi] at h1
+    rw [List.getElem?_append_right (by rw [← h.1]; exact hi)] at h2
+    rw [← h.1] at h2
+    rcases hk : i - vs.length with _ | k
+    · rw [hk] at h1 h2
+      simp only [List.getElem?_cons_zero, Option.some.injEq] at h1 h2
+      subst h1; subst h2; exact hr
+    · rw [hk] at h1; simp at h1
+
+theorem VarsRep.lookupAll {g : Graph} {vs : List Nat} {es : List Expr} (h : VarsRep g vs es) :
+    ∀ (as : List Nat),
+      (∀ xs, lookupAll vs as = some xs → ∃ ys, lookupAll es as = some ys ∧ RepAll g xs ys ∧
+        (xs = [] ↔ ys = [])) ∧
+      (lookupAll vs as = none → lookupAll es as = none)
+  | [] => by
+    simp only [SubsetEval.lookupAll]
+    exact ⟨fun xs hxs => by cases hxs; exact ⟨[], rfl, by simp only [RepAll], by simp⟩, fun hh => by cases hh⟩
+  | a :: as => by
+    have ih := VarsRep.lookupAll h as
+    simp only [SubsetEval.lookupAll]
+    cases hx : vs[a]? with
+    | none =>
+      rw [h.get_none hx]
+      exact ⟨fun xs hxs => (by cases hxs), fun _ => rfl⟩
+    | some x =>
+      obtain ⟨e, he, hr⟩ := h.get hx
+      rw [he]
+      cases hl : SubsetEval.lookupAll vs as with
+      | none =>
+        rw [ih.2 hl]
+        exact ⟨fun xs hxs => (by cases hxs), fun _ => rfl⟩
+      | some r =>
+        obtain ⟨ys, hys, hra, _⟩ := ih.1 r hl
+        rw [hys]
+        refine ⟨fun xs hxs => ?_, fun hh => by cases hh⟩
+        cases hxs
+        exact ⟨e :: ys, rfl, by simp only [RepAll]; exact ⟨hr, hra⟩, by simp⟩
+
+structure Sim (env : Env) (si : Impl.State) (ss : Spec.State) : Prop where
+  coh : CacheCoherent env si.h
+  vars : VarsRep si.h.g si.vars ss.vars
+  cur : Rep si.h.g si.cur ss.cur
+
+/-- Everything one step guarantees. -/
+structure StepOk (env : Env) (si : Impl.State) (ri : Impl.State × Impl.Out) (rs : Spec.State × Obs) :
+    Prop where
+  sim : Sim env ri.1 rs.1
+  obs : ri.2.obs = rs.2
+  gle : si.h.g.Le ri.1.h.g
+  ext : ArrExt si.h ri.1.h
+  arr : ∀ a, ri.2.arr = some a → ∃ m, ri.1.h.arrays[a]? = some m ∧ ri.2.obs = .mask (.ok m)
+
+theorem Sim.grow {env : Env} {si : Impl.State} {ss : Spec.State} (hs : Sim env si ss) {g' : Graph}
+    (hle : si.h.g.Le g') :
+    CacheCoherent env { si.h with g := g' } ∧ VarsRep g' si.vars ss.vars ∧ Rep g' si.cur ss.cur :=
+  ⟨CacheCoherent.transfer (h' := { si.h with g := g' }) hs.coh hle rfl (fun _ _ => rfl),
+   hs.vars.mono hle, Rep.mono hle _ _ hs.cur⟩
+
+theorem stepOk_bad {env : Env} {si : Impl.State} {ss : Spec.State} (hs : Sim env si ss) :
+    StepOk env si (si, ⟨.bad, none⟩) (ss, .bad) :=
+  ⟨hs, rfl, Graph.Le.refl _, ArrExt.refl _, fun a ha => by cases ha⟩
+
+theorem stepOk_bind {env : Env} {si : Impl.State} {ss : Spec.State} (hs : Sim env si ss)
+    {g' : Graph} {n : Nat} {e : Expr} (hle : si.h.g.Le g') (hr : Rep g' n e) :
+    StepOk env si
+      ({ si with h := { si.h with g := g' }, vars := si.vars ++ [n] }, ⟨.none, none⟩)
+      ({ ss with vars := ss.vars ++ [e] }, .none) := by
+  obtain ⟨c, v, k⟩ := hs.grow hle
+  exact ⟨⟨c, v.push hr, k⟩, rfl, hle, ArrExt.refl _, fun a ha => by cases ha⟩
+
+theorem stepOk_observe {env : Env} {si : Impl.State} {ss : Spec.State} (hs : Sim env si ss)
+    {e : Expr} {d : DataId} {v : View} {r : Heap × Except Err ArrId} (hp : Post env si.h e d v r) :
+    StepOk env si (Impl.observe si r) (ss, .mask (e.denote env d v)) := by
+  rcases r with ⟨h', res⟩
+  have pg : h'.g = si.h.g := hp.g
+  have px : ArrExt si.h h' := hp.ext
+  have pc : CacheCoherent env h' := hp.coh
+  have hsim : Sim env { si with h := h' } ss := ⟨pc, by rw [pg]; exact hs.vars, by rw [pg]; exact hs.cur⟩
+  have hle : si.h.g.Le h'.g := by rw [pg]; exact Graph.Le.refl _
+  cases res with
+  | error er =>
+    have hres : e.denote env d v = .error er := hp.res
+    simp only [Impl.observe]
+    exact ⟨hsim, by rw [hres], hle, px, fun a ha => by cases ha⟩
+  | ok a =>
+    obtain ⟨m, harr, hden⟩ : ∃ m, h'.arrays[a]? = some m ∧ e.denote env d v = .ok m := hp.res
+    simp only [Impl.observe, harr]
+    exact ⟨hsim, by rw [hden], hle, px, fun a' ha' => by cases ha'; exact ⟨m, harr, rfl⟩⟩
+
+theorem step_sim (tbl : ClassTable) (hf : tbl.Faithful) (env : Env) (si : Impl.State)
+    (ss : Spec.State) (hs : Sim env si ss) (op : Op) :
+    StepOk env si (Impl.step tbl env si op) (Spec.step env ss op) := by
+  cases op with
+  | leaf k c =>
+    simp only [Impl.step, Spec.step, Impl.bind]
+    obtain ⟨hle, hr⟩ := mkLeaf_spec si.h.g k c
+    exact stepOk_bind hs hle hr
+  | bin op a b =>
+    simp only [Impl.step, Spec.step]
+    cases ha : si.vars[a]? with
+    | none => rw [hs.vars.get_none ha]; exact stepOk_bad hs
+    | some x =>
+      obtain ⟨ea, hea, hra⟩ := hs.vars.get ha
+      rw [hea]
+      cases hb : si.vars[b]? with
+      | none => rw [hs.vars.get_none hb]; exact stepOk_bad hs
+      | some y =>
+        obtain ⟨eb, heb, hrb⟩ := hs.vars.get hb
+        rw [heb]
+        obtain ⟨g', n, e1, hle, hr⟩ := mkBin_spec tbl hf si.h.g op x y ea eb hra hrb
+        simp only [Impl.bindOpt, e1]
+        exact stepOk_bind hs hle hr
+  | inv a =>
+    simp only [Impl.step, Spec.step]
+    cases ha : si.vars[a]? with
+    | none => rw [hs.vars.get_none ha]; exact stepOk_bad hs
+    | some x =>
+      obtain ⟨ea, hea, hra⟩ := hs.vars.get ha
+      rw [hea]
+      obtain ⟨g', n, e1, hle, hr⟩ := mkInv_spec tbl hf si.h.g x ea hra
+      simp only [Impl.bindOpt, e1]
+      exact stepOk_bind hs hle hr
+  | multiOr as =>
+    simp only [Impl.step, Spec.step]
+    have hl := hs.vars.lookupAll as
+    cases hx : lookupAll si.vars as with
+    | none => rw [hl.2 hx]; exact stepOk_bad hs
+    | some xs =>
+      obtain ⟨ys, hys, hra, hemp⟩ := hl.1 xs hx
+      rw [hys]
+      cases xs with
+      | nil =>
+        have : ys = [] := hemp.mp rfl
+        subst this
+        exact stepOk_bad hs
+      | cons x xs =>
+        cases ys with
+        | nil => simp only [RepAll] at hra
+        | cons y ys =>
+          obtain ⟨hle, hr⟩ := mkMultiOr_spec si.h.g (x :: xs) (y :: ys) (by simp) hra
+          simp only [Impl.bind]
+          exact stepOk_bind hs hle hr
+  | copy a =>
+    simp only [Impl.step, Spec.step]
+    cases ha : si.vars[a]? with
+    | none => rw [hs.vars.get_none ha]; exact stepOk_bad hs
+    | some x =>
+      obtain ⟨ea, hea, hra⟩ := hs.vars.get ha
+      rw [hea]
+      obtain ⟨g', n, e1, hle, hr⟩ := copy_spec tbl hf si.h.g x ea hra
+      simp only [Impl.bindOpt, e1]
+      exact stepOk_bind hs hle hr
+  | eval a d v f =>
+    simp only [Impl.step, Spec.step]
+    cases ha : si.vars[a]? with
+    | none => rw [hs.vars.get_none ha]; exact stepOk_bad hs
+    | some x =>
+      obtain ⟨ea, hea, hra⟩ := hs.vars.get ha
+      rw [hea]
+      exact stepOk_observe hs (toMask_spec tbl env si.h.g.fuel si.h x d v f ea hs.coh hra hra.depth_lt_fuel)
+  | edit m a =>
+    simp only [Impl.step, Spec.step]
+    cases ha : si.vars[a]? with
+    | none => rw [hs.vars.get_none ha]; exact stepOk_bad hs
+    | some x =>
+      obtain ⟨ea, hea, hra⟩ := hs.vars.get ha
+      rw [hea]
+      obtain ⟨g', n, e1, hle, hr⟩ := editGraph_spec tbl hf si.h.g m x si.cur ea ss.cur hra hs.cur
+      simp only [Impl.setCur, e1]
+      obtain ⟨c, v, _⟩ := hs.grow hle
+      exact ⟨⟨c, v, hr⟩, rfl, hle, ArrExt.refl _, fun a ha => by cases ha⟩
+  | evalCur d v =>
+    simp only [Impl.step, Spec.step]
+    exact stepOk_observe hs (toMask_spec tbl env si.h.g.fuel si.h si.cur d v .kw ss.cur hs.coh hs.cur
+      hs.cur.depth_lt_fuel)
+  | useCur =>
+    simp only [Impl.step, Spec.step]
+    exact ⟨⟨hs.coh, hs.vars.push hs.cur, hs.cur⟩, rfl, Graph.Le.refl _, ArrExt.refl _,
+      fun a ha => by cases ha⟩
